@@ -419,6 +419,7 @@ impl Pipeline {
             let pipeline_stats = self.stats.clone();
 
             let handle = tokio::spawn(async move {
+                let mut failure: Option<ZiporaError> = None;
                 while let Some(item) = stage_input_rx.recv().await {
                     let start_time = Instant::now();
                     stage_stats.active_items.fetch_add(1, Ordering::Relaxed);
@@ -444,8 +445,14 @@ impl Pipeline {
                                 .total_processed
                                 .fetch_add(1, Ordering::Relaxed);
                         }
-                        Ok(Err(_)) | Err(_) => {
-                            // Stage failed or timed out
+                        Ok(Err(e)) => {
+                            // Stage failed: stop and report it to the caller
+                            failure = Some(e);
+                            break;
+                        }
+                        Err(_) => {
+                            // Stage timed out: stop and report it to the caller
+                            failure = Some(ZiporaError::configuration("stage timeout"));
                             break;
                         }
                     }
@@ -456,17 +463,32 @@ impl Pipeline {
                 }
 
                 drop(output_tx); // Signal end of stream
+                match failure {
+                    Some(e) => Err(e),
+                    None => Ok(()),
+                }
             });
 
             handles.push(handle);
         }
 
-        // Wait for all stages to complete
+        // Wait for all stages to complete; a stage that failed or timed out has cut the
+        // stream short, which the caller must learn as an error, not as a clean end.
+        let mut first_failure: Option<ZiporaError> = None;
         for handle in handles {
-            let _ = handle.await;
+            let outcome: Result<()> = match handle.await {
+                Ok(stage_result) => stage_result,
+                Err(e) => Err(ZiporaError::configuration(&format!("stage task failed: {}", e))),
+            };
+            if let Err(e) = outcome {
+                first_failure.get_or_insert(e);
+            }
         }
 
-        Ok(())
+        match first_failure {
+            Some(e) => Err(e),
+            None => Ok(()),
+        }
     }
 
     /// Process a batch of items through a single stage
